@@ -271,8 +271,9 @@ class Filter(object):
             # This additional step limits the total number of events in
             # self.all.
             if cfg_cur["limit events"] > 0:
-                limit = cfg_cur["limit events"]
                 sub = arr_all[arr_all]
+                # never more than there is (the request is a 32 bit count)
+                limit = min(cfg_cur["limit events"], sub.size)
                 _, idx = downsampling.downsample_rand(sub,
                                                       samples=limit,
                                                       ret_idx=True)
